@@ -498,6 +498,9 @@ func genText(r *coqfmt.Rng, fi flagInfo) (string, bool) {
 		if r.Chance(1, 6) {
 			return coqfmt.Pick(r, []string{"", "x", "1..2", "--1", "1e", "1e400", "1361129467683753853853498429727072845824", "-680564733841876926926749214863536422912"}), true // 2^130, -2^129: beyond float32, exact in float64
 		}
+		if r.Chance(1, 12) {
+			return coqfmt.Pick(r, []string{"Inf", "-Infinity", "+inf", "iNf", "-INF"}), true // never an overflow, whatever the leaf's size
+		}
 		if vt == "*flag.float64Value" && r.Chance(1, 8) {
 			// std package: a float32 leaf rides on a float64 flag and Value checks the range itself.  The
 			// largest float32, and a float64 just above it (MaxFloat32 + 2^100: it would ROUND to the
